@@ -31,6 +31,12 @@ pub fn run_request(label: &str, flavour: Flavour, n_ext: usize, query: &str, par
 }
 
 /// Same, with an operation name and variables.
+thread_local! {
+    /// When set, requests are handed to the schema with their document already parsed
+    /// (`Request::parsed_query()`), the way integrations that inspect the operation first do.
+    pub static PRE_PARSE: std::cell::Cell<bool> = const { std::cell::Cell::new(false) };
+}
+
 pub fn run_request_with(label: &str, flavour: Flavour, n_ext: usize, query: &str, operation_name: Option<&str>, variables: Option<J>, params: Option<Params>) -> ExecOut {
     begin_world_exec();
     sim::begin_exec(label);
@@ -44,6 +50,10 @@ pub fn run_request_with(label: &str, flavour: Flavour, n_ext: usize, query: &str
     }
     if let Some(v) = variables {
         req = req.variables(async_graphql::Variables::from_json(v));
+    }
+    if PRE_PARSE.with(|c| c.get()) {
+        sim::count("probe:request-carries-parsed-document");
+        let _ = req.parsed_query();
     }
     let (_, slot) = match flavour {
         Flavour::Static => {
